@@ -34,24 +34,29 @@ ACTIONS = [
     ('travel-in', 'G0', 'XY', 0, True, 'both'),
     ('fw-retract', 'G10', '', 0, None, 'fw'),
     ('fw-recover', 'G11', '', 0, None, 'fw'),
+    # the other ways an episode ends / exclusion is switched: @-command actions and the end-of-print script hook
+    ('at-disable', '@disable', '', 0, None, 'both'),
+    ('at-enable', '@enable', '', 0, None, 'both'),
 ]
 
 
 class TS(object):
     """typestate of the filter"""
-    __slots__ = ('excluding', 'lr')
+    __slots__ = ('excluding', 'lr', 'enabled')
 
-    def __init__(self, excluding, lr):
+    def __init__(self, excluding, lr, enabled=True):
         self.excluding = excluding
         self.lr = lr            # None | (recoverExcluded, allowCombine, firmware, amount in units of A or None)
+        self.enabled = enabled
 
     def key(self):
-        return (self.excluding, self.lr)
+        return (self.excluding, self.lr, self.enabled)
 
     def __repr__(self):
+        dis = '' if self.enabled else 'DISABLED '
         if self.lr is None:
-            return '%s/no-retraction' % ('excluding' if self.excluding else 'outside')
-        return '%s/retraction(owed=%s,combine=%s,%s,len=%s)' % ('excluding' if self.excluding else 'outside',
+            return '%s%s/no-retraction' % (dis, 'excluding' if self.excluding else 'outside')
+        return '%s%s/retraction(owed=%s,combine=%s,%s,len=%s)' % (dis, 'excluding' if self.excluding else 'outside',
                                                                 self.lr[0], self.lr[1], 'fw' if self.lr[2] else 'E', self.lr[3])
 
 
@@ -65,7 +70,7 @@ def prep_for(ts, action):
     name, gcode, letters, d, inside, world = action
 
     def prep(I, st, H, S):
-        st.restrict(('fld', S_OID, '_exclusionEnabled'), frozenset([True]))
+        st.restrict(('fld', S_OID, '_exclusionEnabled'), frozenset([ts.enabled]))
         st.restrict(('fld', S_OID, 'excluding'), frozenset([ts.excluding]))
         st.restrict(('null', S_OID, 'enteringExcludedRegionGcode'), frozenset([True]))
         st.restrict(('null', S_OID, 'exitingExcludedRegionGcode'), frozenset([True]))
@@ -168,7 +173,7 @@ class Transition(object):
 def read_outputs(I, p, f, d):
     outs = []
     if f.kind == 'none':
-        return [('cmd',)]
+        return [('cmd',)] if not p.entry.endswith('Exclusion') else []
     if f.kind != 'list':
         return []
     for e in f.elems:
@@ -231,8 +236,10 @@ def post_typestate(I, p, f, d, pre):
     if len(alts) != 1:
         raise AnalysisError('lastRetraction after the step: %r' % (alts,))
     o = alts[0]
+    en = f.final(S_OID, '_exclusionEnabled')
+    enabled = en[0] if len(en) == 1 and en[0] in (True, False) else pre.enabled
     if o is NONE:
-        return TS(exc, None)
+        return TS(exc, None, enabled)
     vals = []
     for attr in ('recoverExcluded', 'allowCombine', 'firmwareRetract'):
         x = live_alts(p.st, p.st.heap.get((o.oid, attr)))
@@ -249,7 +256,7 @@ def post_typestate(I, p, f, d, pre):
             amt = '?'
         else:
             amt = k
-    return TS(exc, (vals[0], vals[1], vals[2], amt))
+    return TS(exc, (vals[0], vals[1], vals[2], amt), enabled)
 
 
 class Machine(object):
@@ -264,8 +271,13 @@ class Machine(object):
         if key in self.cache:
             return self.cache[key]
         name, gcode, letters, d, inside, world = action
-        from .entries import run_gcode
-        paths = run_gcode(self.I, gcode, prep=prep_for(ts, action))
+        from .entries import run_gcode, run_state_method
+        if gcode in ('@disable', '@enable'):
+            meth = 'disableExclusion' if gcode == '@disable' else 'enableExclusion'
+            pp = prep_for(ts, action)
+            paths = run_state_method(self.I, meth, [SStr('ATCMD', nonempty=True)], prep=pp)
+        else:
+            paths = run_gcode(self.I, gcode, prep=prep_for(ts, action))
         out = []
         for p in paths:
             f = Facts(p, self.I)
